@@ -441,3 +441,5 @@ def run(chk, tier):
     chk.guard('C03.m', lambda: c03.rule_mnemonics(chk, prog, tier))       # the compare ladder and the promotion of the controlling expression reach the backend as text
     from props import c01
     chk.guard('C01.b', lambda: c01.rule_convert(chk, prog, tier))        # the promotion of the controlling expression is a conversion: a narrow unsigned value must be zero-extended before the ladder compares it
+    from props import c05
+    chk.guard('C05.a', lambda: c05.rule_promote(chk, prog, tier))        # the type case constants are converted to is the promoted type of the controlling expression, also of a bit-field wider than int
